@@ -449,8 +449,9 @@ func c07Save(fs *Facts, f *File) {
 	second, ok := first.Else.(*ast.IfStmt)
 	expOK := ok && f.Str(second.Cond) == "t.IsExpirationTimeChanged()" && second.Else == nil &&
 		f.Str(second.Body) == "{ s.deleteTreasureIfBeaconInitialized(s.expirationTimeBeaconASC, t.GetKey()) s.deleteTreasureIfBeaconInitialized(s.expirationTimeBeaconDESC, t.GetKey()) if t.GetExpirationTime() != 0 { s.addToExpirationTimeBeacon(t) } }"
+	expFact := TriOf(expOK)
 	if first.Else != nil && !expOK {
-		return
+		expFact = Unknown // an else-branch of another shape: only this fact is lost
 	}
 	// after the chain: optional re-filing blocks, each of the known shape; anything else that
 	// touches a beacon makes the facts unknown
@@ -483,7 +484,7 @@ func c07Save(fs *Facts, f *File) {
 	if other > 0 {
 		return
 	}
-	fs.Tri("updRefreshExpireOnFlag", TriOf(expOK), where)
+	fs.Tri("updRefreshExpireOnFlag", expFact, where)
 	fs.Tri("updRefreshCreated", crt, where)
 	fs.Tri("updRefreshUpdated", upd, where)
 	fs.Tri("updRefreshValue", val, where)
